@@ -72,6 +72,16 @@ def refStep (r : IRef) (t0 : List String) (obs : String) : IRef × String :=
   | ["iattempt", att, party, pl] =>
     let payload := (Bytes.ofHex (pl.drop 8).toString).getD []
     ({ r with atts := setS r.atts att ({ party, payload } : AttRec) }, "-")
+  | ["isign", ki, _, _] =>
+    -- a datagram signed by the holder of key `ki` with content of the script's choosing: genuine signed content of that key (C01 judges
+    -- it by the receiver's trust in the key); the holder is represented by a pseudo party / attempt `signer<ki>`
+    match ki.toNat?.bind (fun i => r.keys[i]?), (obs.splitOn "=")[1]?.bind Bytes.ofHex with
+    | some key, some msg =>
+      let name := s!"signer{ki}"
+      let p : IParty := { key, trusted := [], algos := { speeds := [], allowUnencrypted := false }, nodeId := [] }
+      ({ r with parties := setS r.parties name p, atts := setS r.atts name ({ party := name, payload := [] } : AttRec),
+                msgs := r.msgs ++ [({ bytes := msg, sender := name } : MsgRec)] }, "-")
+    | _, _ => (r, "-")
   | ["iexpect", "both", a, b] =>
     -- after a reliable lock-step phase both attempts have completed, with each other
     match lookupS r.atts a, lookupS r.atts b with
